@@ -358,10 +358,13 @@ impl Runtime {
                     }
                     self.state = State::InputRedo;
                 } else {
+                    let is_break = error.is_break();
                     self.cont = State::RuntimeError(error.in_line_number(line_number(self)));
                     std::mem::swap(&mut self.cont, &mut self.state);
                     self.cont_pc = self.pc;
-                    if self.pc >= self.entry_address || self.stack.is_full() {
+                    // A nearly full stack is given up after an error so that the session stays
+                    // usable, but a STOP is not an error: it stays continuable like a CTRL-C.
+                    if self.pc >= self.entry_address || (self.stack.is_full() && !is_break) {
                         self.stack.clear();
                         self.cont = State::Stopped;
                     }
